@@ -254,8 +254,10 @@ class Run:
         for k in sorted(self.sets):
             print(f"  distinct {k} = {len(self.sets[k])}")
         if unknown:
-            for kf, path, n in replay_paths:
+            for kf, path, n in replay_paths[:15]:
                 print(f"VIOLATION property={self.pid} replay={path}   # {n} case(s): {json.dumps(kf, default=str)[:300]}")
+            if len(replay_paths) > 15:
+                print(f"  ... {len(replay_paths) - 15} more violation classes with replay files under {rdir}")
             sys.stdout.flush()
             sys.exit(1)
         if floor_fail:
